@@ -210,7 +210,7 @@ func genC05(tier string, emit func(any)) {
 	ips := []uint64{0, 1, 7}
 	rootsets := []string{"a", "nil", "ab"}
 	if tier == "thorough" {
-		names = append(names, "k", "i0")
+		names = append(names, "k", "i0", "ip1", "ip2")
 		maxLen = 3
 		rootsets = []string{"a", "nil", "empty", "ab", "a0"}
 	}
